@@ -150,3 +150,17 @@ def env_sweep(ident, pos, what, delays=0):
     s += {"disconnect": ["disconnect"], "force": ["force/9/nowait"], "fastforward": ["fastforward"], "cancel": ["cancelcmd/3"]}[what]
     s += ["longsettle/%d" % (delays + 120) if delays else "settle", "awaitall", "settle"]
     return " ".join(kv) + " script=" + ";".join(s)
+
+
+def shutdown_then_command(rng, ident, delays=0):
+    """Shutdown while an attempt is in flight (a held dial), then more commands before the attempt returns: still one dial at a
+    time, and the newcomers are released with the sequence that was shut down"""
+    kv = ["conn", ident, "mode=conc", "lazy=1", "dials=%s" % rng.choice(["ok,ok,ok", "fail,ok,ok", "ok"]), "conns=ok,ok,ok"]
+    if delays:
+        kv.append("firstdelay=%d" % delays)
+    s = ["holddial", "cmd/1/ok/0/nowait", "waitdial/1", "settle", "shutdown"]
+    for i in range(2, 2 + 1 + rng.below(3)):
+        s.append(("force/%d/nowait" % i) if rng.chance(1, 3) else "cmd/%d/ok/0/nowait" % i)
+        s.append("sleep/%d" % rng.below(3))
+    s += ["settle", "releasedial", "longsettle/%d" % (delays + 120) if delays else "settle", "awaitall", "settle"]
+    return " ".join(kv) + " script=" + ";".join(s)
